@@ -11,6 +11,7 @@ spec (on impl) : whenever no attempt is in progress and no connection is alive, 
                  error and writes nothing; unsubscribe/stop closures from earlier sessions write nothing
 """
 from __future__ import annotations
+import common
 
 import inspect
 from asyncio import tasks
@@ -36,6 +37,8 @@ class Bench:
         self.net = simnet.Net(base=100.0)
         self.loop = self.net.loop
         self.client = APIClient("10.0.0.1", 6053, None)
+        if common.debug_flip():
+            self.client.set_debug(True)
         self.start_task = self.finish_task = None
         self.lines, self.obs = ["cl.reset"], ["ok"]
         self.closures = []
